@@ -62,11 +62,12 @@ def drain (f : S → Item → S) (s : S) : List Item → S
   | [] => s
   | it :: rest => drain f (f s it) rest
 
-/-- the first queued operation for this identifier -/
+/-- the acknowledgement at the head of the queue must be the one for this identifier: the send queue is first in, first out (requests
+without a serial number keep their order also through the stable sort of a resend) -/
 def pop (q : List (Nat × Nat)) (pid : Nat) : Option (Nat × List (Nat × Nat)) :=
   match q with
   | [] => none
-  | (p, m) :: rest => if p = pid then some (m, rest) else (pop rest pid).map fun r => (r.1, (p, m) :: r.2)
+  | (p, m) :: rest => if p = pid then some (m, rest) else none
 
 def stepPk (s : S) : Out → Option S
   | .puback pid => (pop s.ackQ pid).map fun r => { s with ackQ := r.2, batch := s.batch ++ [.ackI pid r.1] }
@@ -118,6 +119,13 @@ def firstReject (s : S) : List Ev → Nat → Option Nat
     | some s' => firstReject s' es (i + 1)
 
 /-! ### Vocabulary for statements about event lists -/
+/-- the messages received with this QoS, in order of arrival -/
+def received (q : Nat) (tr : List Ev) : List Nat :=
+  tr.filterMap fun e => match e with | .rxPub q' _ m => if q' = q then some m else none | _ => none
+/-- the messages of this QoS handed to the application, in order -/
+def delivered (q : Nat) (tr : List Ev) : List Nat :=
+  tr.filterMap fun e => match e with | .deliver q' _ m => if q' = q then some m else none | _ => none
+
 def cnt (P : Ev → Bool) (tr : List Ev) : Nat := tr.countP P
 
 def isPuback (p : Nat) : Ev → Bool | .pk (.puback q) => q == p | _ => false
